@@ -1,2 +1,2 @@
 #include "life/life.h"
-void run_C08(vh::Ctx&){} void run_C09(vh::Ctx&){} void run_C15(vh::Ctx&){}
+void run_C09(vh::Ctx&){}
